@@ -174,7 +174,7 @@ Proof.
     assert (K : loc_ok c v (mkLocal (l_target l) (l_obj l) (l_fail l) (l_new l) (Some (s_ident s)) (l_vseen l) (l_extra l) (l_stop l) (l_out l))).
     { unfold loc_ok. simpl. rewrite Si. auto. }
     destruct (l_obj l) as [o|]; injection I as <- <-; (split; [repeat split; assumption|]).
-    + destruct ((o_owner o =? s_ident s) || (o_owner o =? PUBLIC)); [exact K|apply fail_ok, K].
+    + destruct (allowed (o_owner o) (s_ident s)); [exact K|apply fail_ok, K].
     + apply fail_ok, K.
   - (* MCreate *)
     destruct (active l); injection I as <- <-; [|split; [repeat split; assumption|exact Hl]].
@@ -271,8 +271,8 @@ Qed.
 End WithCred.
 
 (* ---------------------------------------------------------------- without the lock *)
-(* two clients: 0 is alice (identity 101) who owns object 1; 1 is bob (identity 202) who asks for it *)
-Definition cred2 (t : nat) : Z := match t with O => 101 | _ => 202 end.
+(* two clients: 0 is alice (user 101, no groups: credential 1010) who owns object 1; 1 is bob (202 -> 2020) who asks for it *)
+Definition cred2 (t : nat) : Z := match t with O => 1010 | _ => 2020 end.
 Definition wit_store : shared := mkShared 0 12 12 0 false None [mkObj 1 101 1] 2.
 Definition wit_queues (t : nat) : list req :=
   match t with
@@ -292,7 +292,7 @@ Definition crossed (cred : nat -> Z) (s : state) : bool :=
 Theorem unlocked_refuted :
   exists s, run cred2 false wit_sched (init wit_store wit_queues) = Some s /\
             crossed cred2 s = true /\
-            In (1%nat, mkReq 10 [QGet (Some 1)], [mkItem OP_get 0 1 0 (Some 101) None]) (log s).
+            In (1%nat, mkReq 10 [QGet (Some 1)], [mkItem OP_get 0 1 0 (Some 1010) None]) (log s).
 Proof.
   eexists. split; [vm_compute; reflexivity|]. split; [vm_compute; reflexivity|]. vm_compute. auto.
 Qed.
